@@ -82,13 +82,25 @@ def corresponds(single, all_err):
 def oracle_load(ctx: Ctx, rec: morph.LoadRecord):
     for strict in (True, False):
         outs = {m: rec.real[(m, strict)] for m in morph.MODES}
-        if any(o["r"] in ("escape", "no-loader") for o in outs.values()):
-            ctx.dist["skipped:escape-is-C04"] += 1
+        if any(o["r"] == "no-loader" for o in outs.values()):
             continue
         case = {"hint": repr(rec.spec.hint)[:300], "ty": rec.spec.ty, "datum": morph.enc(rec.datum), "strict": strict,
                 "origin": rec.origin}
-        kinds = {m: o["r"] for m, o in outs.items()}
         one_shot = morph.has_iter(case["datum"]) and morph.spec_has_union(rec.spec)
+        if any(o["r"] == "escape" for o in outs.values()):
+            # Lean: `escape_reaches_all` - an unexpected (non-LoadError) exception met by any mode is met by ALL, which inspects
+            # every element; agreement is proved under `AllClean` (the ALL run raises no unexpected error). So the only
+            # admissible pattern with an escape is: ALL escapes too.
+            if outs["ALL"]["r"] != "escape" and not one_shot:
+                sig = "accept-unexpected-error:class-object-datum" if isinstance(rec.datum, type) else \
+                    f"accept-unexpected-error:{rec.spec.kind.split(':')[0]}"
+                ctx.fail(sig, f"an unexpected error escapes under some mode but ALL ends with {outs['ALL']['r']!r} for "
+                         f"{repr(rec.spec.hint)[:120]} (strict={strict}): { {m: o['r'] for m, o in outs.items()} }",
+                         dict(case, datum_is_class=isinstance(rec.datum, type)))
+            else:
+                ctx.dist["unexpected-error-reaches-ALL"] += 1
+            continue
+        kinds = {m: o["r"] for m, o in outs.items()}
         if len(set(kinds.values())) != 1:
             if one_shot:
                 ctx.fail("accept:union:one-shot-iterator",
@@ -123,6 +135,26 @@ def one_shot_union_probe(ctx: Ctx, eng: morph.Engine) -> bool:
     if len(set(kinds.values())) != 1:
         ctx.fail("accept:union:one-shot-iterator", f"a one-shot iterator under a Union is consumed differently by the modes: {kinds}",
                  {"probe": "one-shot-union", "hint": repr(hint), "datum": "(x for x in [1, 2])"})
+        return True
+    return False
+
+
+def class_object_union_probe(ctx: Ctx, eng: morph.Engine) -> bool:
+    """the recorded finding, deterministically: the class `type` is subscriptable, so the model loader's data['a0'] succeeds
+    and the ALL-mode loader goes on to `'b1' in data`, which raises TypeError"""
+    import dataclasses
+    from typing import Union
+
+    @dataclasses.dataclass
+    class CM:
+        a0: int
+        b1: int = 0
+    kinds = {m: eng.real.load(m, False, Union[CM, str, int], type)["r"] for m in morph.MODES}
+    ctx.note_case({"probe": "class-object-union"}, nontrivial=True, kind="probe:class-object-union")
+    if "ok" in kinds.values() and len(set(kinds.values())) != 1:
+        ctx.fail("accept-unexpected-error:class-object-datum",
+                 f"a class object as datum of Union[model, str, int] (lax): {kinds}",
+                 {"probe": "class-object-union", "datum_is_class": True})
         return True
     return False
 
@@ -226,9 +258,10 @@ def optional_model_loads(ctx: Ctx, eng: morph.Engine, n: int):
 def run(ctx: Ctx):
     eng = morph.Engine(ctx)
     one_shot_union_probe(ctx, eng)
+    class_object_union_probe(ctx, eng)
     optional_model_loads(ctx, eng, ctx.budget(40, 800))
     typeddict_dump_suite(ctx, ctx.budget(60, 1500))
-    specs = eng.gen_specs(ctx.budget(160, 2500), 3 if ctx.tier == "quick" else 4)
+    specs = eng.gen_specs(ctx.budget(160, 2500), 3 if ctx.tier == "quick" else 4, user_leaves=True)
     recs = eng.load_records(specs, suite="load", n_valid=2, n_corrupt=3, n_hostile=2)
     for rec in recs:
         rejected = any(o["r"] != "ok" for o in rec.real.values())
@@ -254,7 +287,7 @@ def search(ctx: Ctx):
     typeddict_dump_suite(ctx, 600)
     eng = morph.Engine(ctx)
     eng.drv = None
-    specs = eng.gen_specs(1500, 4)
+    specs = eng.gen_specs(1500, 4, user_leaves=True)
     for rec in eng.load_records(specs, n_valid=2, n_corrupt=4, n_hostile=3):
         oracle_load(ctx, rec)
 
@@ -262,4 +295,6 @@ def search(ctx: Ctx):
 def replay(ctx: Ctx, case) -> bool:
     if case and case.get("probe") == "one-shot-union":
         return one_shot_union_probe(ctx, morph.Engine(ctx))
+    if case and case.get("probe") == "class-object-union":
+        return class_object_union_probe(ctx, morph.Engine(ctx))
     return False  # replays carry the full case; re-running needs the generated classes (see seed/tier in the replay file)
